@@ -497,7 +497,7 @@ func (se *SessionExecutor) getBackendKsConn(reqCtx *util.RequestContext, sliceNa
 		if err = pc.SetAutoCommit(0); err != nil {
 			pc.Close()
 			pc.Recycle()
-			return
+			return nil, err // already recycled: the caller must not recycle it again
 		}
 	}
 
@@ -505,7 +505,7 @@ func (se *SessionExecutor) getBackendKsConn(reqCtx *util.RequestContext, sliceNa
 		if err = pc.Begin(); err != nil {
 			pc.Close()
 			pc.Recycle()
-			return
+			return nil, err
 		}
 	}
 
@@ -534,19 +534,19 @@ func (se *SessionExecutor) getTransactionConn(sliceName string) (pc backend.Pool
 	if err = pc.SyncSessionVariables(se.sessionVariables); err != nil {
 		pc.Close()
 		pc.Recycle()
-		return
+		return nil, err // already recycled: the caller must not recycle it again
 	}
 	if !se.isAutoCommit() {
 		if err = pc.SetAutoCommit(0); err != nil {
 			pc.Close()
 			pc.Recycle()
-			return
+			return nil, err
 		}
 	} else {
 		if err = pc.Begin(); err != nil {
 			pc.Close()
 			pc.Recycle()
-			return
+			return nil, err
 		}
 	}
 	for _, savepoint := range se.savepoints {
